@@ -2924,7 +2924,7 @@ Proof.
   pose proof (linspace_length lo hi (S n)) as HL.
   unfold masses. destruct (linspace lo hi (S n)) as [|a pts]; [discriminate|].
   rewrite n_diffF_sum. cbn [hd] in Hf. subst a. change (num RealA) with R in *. rewrite Hl.
-  rewrite rvh_cdf_below by lra. rewrite rvh_cdf_above by lra. lra.
+  rewrite (rvh_cdf_below e _ lo) by lra. rewrite (rvh_cdf_above e _ hi) by lra. lra.
 Qed.
 
 Lemma n_span : forall eX eY : list R,
@@ -2937,8 +2937,9 @@ Qed.
 Lemma support_points_swap : forall (eX eY : list R) (nb : nat),
   support_points (A:=RealA) eY eX nb = support_points (A:=RealA) eX eY nb.
 Proof.
-  intros. unfold support_points. change (@zero RealA) with 0.
-  rewrite (lmin_perm _ _ (perm_swap (hd 0 eX) (hd 0 eY) [])), (lmax_perm _ _ (perm_swap (last eX 0) (last eY 0) [])).
+  intros. unfold support_points. change (@zero RealA) with 0. change (num RealA) with R in *.
+  rewrite (lmin_perm [hd 0 eY; hd 0 eX] [hd 0 eX; hd 0 eY] (perm_swap _ _ [])).
+  rewrite (lmax_perm [last eY 0; last eX 0] [last eX 0; last eY 0] (perm_swap _ _ [])).
   reflexivity.
 Qed.
 
@@ -2966,7 +2967,8 @@ Lemma n_support_sorted : forall (hX hY : list Z * list R) (nb : nat), valid_hist
 Proof.
   intros hX hY nb VX VY Hnb. unfold support_points. change (@zero RealA) with 0.
   destruct nb as [|n]; [lia|]. apply linspace_sorted; [lia|].
-  pose proof (n_span (snd hX) (snd hY)) as (H1 & _ & H3 & _). pose proof (valid_hist_range hX VX). lra.
+  pose proof (n_span (snd hX) (snd hY)) as (H1 & _ & H3 & _). pose proof (valid_hist_range hX VX) as H0.
+  change (num RealA) with R in *. lra.
 Qed.
 
 (** the two discretised mass vectors are probability vectors of the same length *)
@@ -2991,22 +2993,24 @@ Lemma js_dist_range : forall (nb : nat) (hX hY : list Z * list R), valid_hist hX
   exists v : R, js_dist (A:=RealA) nb hX hY = Fin v /\ 0 <= v /\ v <= sqrt (ln 2).
 Proof.
   intros nb hX hY VX VY Hnb. destruct (masses_valid nb hX hY VX VY Hnb) as ((HP & HsP) & (HQ & HsQ) & HL).
-  unfold js_dist.
-  destruct (js_range _ _ HP HQ HL ltac:(lra) ltac:(lra)) as (v & Hv & Hr).
+  unfold js_dist. change (num RealA) with R in *.
+  assert (H0P : 0 < sumA (A:=RealA) (masses (fst hX) (snd hX) (support_points (snd hX) (snd hY) nb))) by (rewrite HsP; lra).
+  assert (H0Q : 0 < sumA (A:=RealA) (masses (fst hY) (snd hY) (support_points (snd hX) (snd hY) nb))) by (rewrite HsQ; lra).
+  destruct (js_range _ _ HP HQ HL H0P H0Q) as (v & Hv & Hr).
   exists v. split; [apply js_f_of_fin; exact Hv | exact Hr].
 Qed.
 Lemma js_dist_self : forall (nb : nat) (h : list Z * list R), valid_hist h -> (2 <= nb)%nat ->
   js_dist (A:=RealA) nb h h = Fin 0.
 Proof.
   intros nb h V Hnb. destruct (masses_valid nb h h V V Hnb) as ((HP & HsP) & _).
-  unfold js_dist. apply js_f_of_fin. apply js_self; auto; lra.
+  unfold js_dist. apply js_f_of_fin. apply js_self; auto. change (num RealA) with R in *. rewrite HsP. lra.
 Qed.
 (** KL(test || reference): +inf or a non-negative number *)
 Lemma kl_dist_nonneg : forall (nb : nat) (hX hY : list Z * list R), valid_hist hX -> valid_hist hY -> (2 <= nb)%nat ->
   kl_dist (A:=RealA) nb hX hY = PInf \/ exists v : R, kl_dist (A:=RealA) nb hX hY = Fin v /\ 0 <= v.
 Proof.
   intros nb hX hY VX VY Hnb. destruct (masses_valid nb hX hY VX VY Hnb) as ((HP & HsP) & (HQ & HsQ) & HL).
-  unfold kl_dist. apply kl_nonneg; auto; lra.
+  unfold kl_dist. apply kl_nonneg; auto. change (num RealA) with R in *. rewrite HsP, HsQ. lra.
 Qed.
 Lemma kl_dist_self : forall (nb : nat) (h : list Z * list R), valid_hist h -> (2 <= nb)%nat ->
   kl_dist (A:=RealA) nb h h = Fin 0.
@@ -3044,6 +3048,6 @@ Proof.
   pose proof (js_dist_self nb (const_hist n c) (const_hist_valid n c Hn) Hnb) as HJ.
   pose proof (kl_dist_self nb (const_hist n c) (const_hist_valid n c Hn) Hnb) as HK.
   unfold js_dist, kl_dist, masses, const_hist in *. cbn [fst snd] in *.
-  rewrite (n_const_table m c Hm). rewrite (n_const_table n c Hn) in HJ, HK. split; assumption.
+  rewrite (n_const_table m c Hm), (n_const_table n c Hn). rewrite (n_const_table n c Hn) in HJ, HK. split; assumption.
 Qed.
 
